@@ -22,16 +22,16 @@ import (
 // global / group / route middleware and the main handler (all splits for n<=3, a seeded split otherwise).
 
 type chainCase struct {
-	Chain    [][][]any `json:"chain"`
-	OnError  [][]any   `json:"onerror"`
-	Hook     [][]any   `json:"hook"`
-	Kind     string    `json:"kind"`
-	Log      [][]any   `json:"log"`
-	Under    [][]any   `json:"under"`
-	Escaped  *bool     `json:"escaped"`
-	Hooked   *bool     `json:"hooked"`
-	CheckW   bool      `json:"checkw"`
-	N        int       `json:"n"`
+	Chain   [][][]any `json:"chain"`
+	OnError [][]any   `json:"onerror"`
+	Hook    [][]any   `json:"hook"`
+	Kind    string    `json:"kind"`
+	Log     [][]any   `json:"log"`
+	Under   [][]any   `json:"under"`
+	Escaped *bool     `json:"escaped"`
+	Hooked  *bool     `json:"hooked"`
+	CheckW  bool      `json:"checkw"`
+	N       int       `json:"n"`
 }
 
 // recWriter is the underlying http.ResponseWriter: it records every call and can reply with short writes / errors.
@@ -41,7 +41,7 @@ type recWriter struct {
 	modes []string // reply mode per Write call, consumed in order (default full)
 }
 
-func (w *recWriter) Header() http.Header { return w.hdr }
+func (w *recWriter) Header() http.Header  { return w.hdr }
 func (w *recWriter) WriteHeader(code int) { w.calls = append(w.calls, []any{"WH", code}) }
 func (w *recWriter) Write(b []byte) (int, error) {
 	mode := "full"
@@ -65,8 +65,8 @@ func (w *recWriter) Write(b []byte) (int, error) {
 func (w *recWriter) Flush() { w.calls = append(w.calls, []any{"FL"}) }
 
 type chainRun struct {
-	log   [][]any
-	rw    *recWriter
+	log    [][]any
+	rw     *recWriter
 	panicV any
 }
 
